@@ -2,7 +2,7 @@
    `c07 <plain|sync|dc> <chk|wrap> <cap> <pdiStart> <readLen> <maxSd> <dcRef> <idx0> <image hex> <addrs a,b,..|-> <resps>`
    resps: `-` (none) or frames separated by `/`; a frame is `_` (no datagrams) or datagrams separated by `,`,
    each `<data hex>:<wkc>`.
-   -> `<frame hex>;<frame hex>;..|<image hex>|ok:<wkc>:<states a,b,..|->:<time|->`  or `..|err:<token>` / `..|panic` / `..|hang` -/
+   -> `<frame hex>;<frame hex>;..|<image hex>|ok:<wkc>:<states a,b,..|->:<time|->`  or `..|err:<token>` / `..|panic` -/
 import EcModel.TxRx
 import EcModel.Drv.Util
 
@@ -28,14 +28,13 @@ def showNats (l : List Nat) : String :=
 
 def errTok : TxErr → String
   | .timeout => "timeout" | .internal => "internal" | .wireShort => "wire" | .pduTooLong => "toolong"
-  | .fuel => "fuel" | .deadlock => "deadlock"
+  | .fuel => "fuel"
 
 def showOut (o : Out) : String :=
   let fr := if o.frames.isEmpty then "-" else joinWith ";" (o.frames.map (fun f => hexBytes f.bytes))
   let img := if o.image.isEmpty then "-" else hexBytes o.image
   let res := match o.res with
     | .ok r => s!"ok:{r.wkc}:{showNats r.states}:" ++ (match r.time with | some t => toString t | none => "-")
-    | .err .deadlock => "hang"
     | .err e => "err:" ++ errTok e
     | .panic _ => "panic"
   fr ++ "|" ++ img ++ "|" ++ res
